@@ -191,7 +191,30 @@ func c06TwoChannels(x *mc.Cell, depth int) {
 	rec(0, 0, nil)
 }
 
+// c06LongLogs: the voucher and voucher-result logs grow well past the sizes where the stored encoding changes shape
+// (CBOR length headers at 24 and 256 entries; any small bound a decoder might impose): 30 vouchers and 260 results
+// on one channel next to an untouched second channel, the store reopened at every one of the ~300 write boundaries.
+func c06LongLogs(x *mc.Cell) {
+	for _, r := range []Role{InitPush, RespPull} {
+		steps := []crashStep{{0, "create"}, {1, "create"}, {0, "Accept"}, {0, "TransferInitiated"}}
+		for i := 0; i < 30; i++ {
+			steps = append(steps, crashStep{0, "NewVoucher*"})
+		}
+		for i := 0; i < 260; i++ {
+			steps = append(steps, crashStep{0, "NewVoucherResult*"})
+		}
+		steps = append(steps, crashStep{1, "Accept"}, crashStep{0, "DataReceivedNext"})
+		other := InitPull
+		if r == InitPush {
+			other = RespPush
+		}
+		pay := map[string]datatransfer.TypedVoucher{"voucher": doubles.Voucher("T2", "follow-up"), "result": doubles.Voucher("R", "receipt")}
+		crashHistory(x, "long-logs/"+RoleNames[r], []Role{r, other}, []datatransfer.TypedVoucher{doubles.Voucher("T", "a"), doubles.Voucher("T", "b")}, steps, pay)
+	}
+}
+
 func init() {
+	mc.Register("C06", "l1-crash-long-logs", "both", c06LongLogs)
 	mc.Register("C06", "l1-crash-payload-family", "both", c06Payloads)
 	mc.Register("C06", "l1-crash-two-channels", "quick", func(x *mc.Cell) { c06TwoChannels(x, 4) })
 	mc.Register("C06", "l1-crash-two-channels", "thorough", func(x *mc.Cell) { c06TwoChannels(x, 7) })
